@@ -22,7 +22,7 @@ for _i in range(32):
                      ",".join(FLAG_NAMES[k][_bits[k]] for k in range(5)) + ")",
                      "findings": [FLAG_FINDINGS[k] for k in range(5) if not _bits[k]]})
 
-RULE = ("cases = mixed histories (dataset create/delete/rename/public namespaces, entity batches with references and deletes, the "
+RULE = ("cases = mixed histories (dataset create [plain / proxy / virtual, with and without public namespaces] / delete / rename / public namespaces, entity batches with references and deletes, the "
         "HTTP full-sync protocol, job add/pause/resume/delete/run of a dataset-to-dataset copy job, client registration and ACLs, "
         "login providers) with restart ops after every op, at random positions, at one position, or - one case per position - at every "
         "position of one history; each is also run without its "
@@ -99,6 +99,12 @@ def witness_cases():
         case([op("reg", c="a"), op("setacl", c="a", acl=[2]), op("reg", c="b"), op("setacl", c="b", acl=[4, 9]),
               op("unreg", c="a"), R, op("reg", c="a"), R, op("unreg", c="b"), op("reg", c="c"), R]),
         case([op("setacl", c="c", acl=[6]), op("reg", c="c"), op("unreg", c="c"), R, op("reg", c="c"), op("setacl", c="b", acl=[1]), R]),
+        # proxy and virtual datasets, with and without public namespaces: create, rename, delete, re-create as another
+        # kind; the stored record must keep kind and configuration over every restart
+        case([op("create", ds=5, kind=1, cfg=7), op("create", ds=6, kind=2, cfg=3), op("create", ds=7, kind=1, cfg=9, pub=[1]),
+              R, op("rename", ds=5, to=1), op("rename", ds=6, to=5), R, op("rename", ds=7, to=6), op("w", ds=1, es=[[1, 10, -1, 0]]),
+              R, op("delete", ds=1), op("create", ds=1, kind=2, cfg=4, pub=[0]), op("pubns", ds=5, pub=[2]), R,
+              op("rename", ds=1, to=7), R]),
         # everything else survives
         case([op("create", ds=1), op("create", ds=2, pub=[1]), op("w", ds=1, es=[[1, 10, -1, 0], [2, 11, 1, 0]]),
               op("addjob", job=0, src=1, sink=2, paused=False, delay=0), op("run", job=0), op("pause", job=0),
@@ -116,10 +122,11 @@ def gen_history(rng, n, mode):
     """a mixed history; `mode`: 0 = restart after every op, 1 = restart with probability 1/3 after each op, 2 = one restart"""
     ops = []
     have_ds = set()
+    have_px = set()
     have_job = set()
     have_acl = set()
     fs_open = {}
-    weights = [("create", 5), ("w", 9), ("delete", 2), ("rename", 2), ("pubns", 2), ("fs", 4),
+    weights = [("create", 6), ("w", 9), ("delete", 2), ("rename", 3), ("pubns", 2), ("fs", 4),
                ("addjob", 4), ("pause", 2), ("resume", 2), ("deljob", 1), ("run", 5),
                ("reg", 3), ("unreg", 3), ("setacl", 4), ("delacl", 2), ("addprov", 3), ("delprov", 2)]
     total = sum(w for _, w in weights)
@@ -141,6 +148,11 @@ def gen_history(rng, n, mode):
             out.append([e, rng.range(10, 99), t, 1 if rng.chance(1, 6) else 0])
         return out
 
+    def some_px():
+        if have_px and rng.chance(7, 8):
+            return rng.choice(sorted(have_px))
+        return rng.range(5, 7)
+
     def some_ds():
         if have_ds and rng.chance(7, 8):
             return rng.choice(sorted(have_ds))
@@ -149,25 +161,41 @@ def gen_history(rng, n, mode):
     for _ in range(n):
         k = pick()
         if k == "create":
-            d = rng.range(1, 4)
-            ops.append(op("create", ds=d, pub=rng.choice([[], [], [0], [1, 2]])))
-            have_ds.add(d)
+            if rng.chance(1, 3):
+                # proxy / virtual datasets live under their own names (jobs never point at them: no network I/O)
+                d = rng.range(5, 7)
+                ops.append(op("create", ds=d, pub=rng.choice([[], [], [0], [1, 2]]), kind=rng.range(1, 2), cfg=rng.range(1, 9)))
+                have_px.add(d)
+            else:
+                d = rng.range(1, 4)
+                ops.append(op("create", ds=d, pub=rng.choice([[], [], [0], [1, 2]])))
+                have_ds.add(d)
         elif k == "w":
-            d = some_ds()
+            d = some_px() if (have_px and rng.chance(1, 8)) else some_ds()
             ops.append(op("w", ds=d, es=ents()))
         elif k == "delete":
-            d = some_ds()
+            d = some_px() if (have_px and rng.chance(1, 3)) else some_ds()
             ops.append(op("delete", ds=d))
             have_ds.discard(d)
+            have_px.discard(d)
         elif k == "rename":
-            d = some_ds()
-            t = rng.range(1, 4)
-            ops.append(op("rename", ds=d, to=t))
-            if d in have_ds and t not in have_ds:
-                have_ds.discard(d)
-                have_ds.add(t)
+            if have_px and rng.chance(1, 2):
+                d = some_px()
+                t = rng.range(5, 7)
+                ops.append(op("rename", ds=d, to=t))
+                if d in have_px and t not in have_px:
+                    have_px.discard(d)
+                    have_px.add(t)
+            else:
+                d = some_ds()
+                t = rng.range(1, 4)
+                ops.append(op("rename", ds=d, to=t))
+                if d in have_ds and t not in have_ds:
+                    have_ds.discard(d)
+                    have_ds.add(t)
         elif k == "pubns":
-            ops.append(op("pubns", ds=some_ds(), pub=rng.choice([[], [0], [1], [0, 2]])))
+            d = some_px() if (have_px and rng.chance(1, 3)) else some_ds()
+            ops.append(op("pubns", ds=d, pub=rng.choice([[], [0], [1], [0, 2]])))
         elif k == "fs":
             d = some_ds()
             cur = fs_open.get(d)
@@ -270,6 +298,10 @@ def uri_code(curie, ns):
         return 990
     if c == 9001 and local == "dataset":
         return 991
+    if c == 9001 and local == "proxy-dataset":
+        return 992
+    if c == 9001 and local == "virtual-dataset":
+        return 993
     if c == 0 and local == "r":
         return 800
     m = re.fullmatch(r"e(\d+)", local)
@@ -351,7 +383,8 @@ def op_term(o):
     if k == "restart":
         return "HRestart false"
     if k == "create":
-        return "HDm (DCreate %s %s)" % (z(o["ds"]), zl(o.get("pub") or []))
+        return "HDm (DCreate %s {| g_pub := %s; g_kind := %s; g_cfg := %s |})" % (
+            z(o["ds"]), zl(o.get("pub") or []), z(o.get("kind", 0)), z(o.get("cfg", 0)))
     if k == "delete":
         return "HDm (DDelete %s)" % z(o["ds"])
     if k == "rename":
@@ -511,6 +544,10 @@ def tags(c, o):
     t = ["restarts=%d" % min(sum(1 for x in c["ops"] if x["op"] == "restart"), 9)]
     for g in sorted(set(GROUPS[x["op"]] for x in c["ops"] if x["op"] != "restart")):
         t.append("uses=" + g)
+    for x in c["ops"]:
+        if x["op"] == "create" and x.get("kind", 0):
+            t.append("has=" + ("proxy" if x["kind"] == 1 else "virtual") + ("+pubns" if x.get("pub") else ""))
+    t = sorted(set(t))
     if o.get("outcome") != "ok":
         t.append("outcome=" + str(o.get("outcome")))
     elif any(not full_same(b, a) for b, a in zip(o["before"], o["after"])):
